@@ -1,5 +1,5 @@
 """Per-property definitions: which cases, which correspondence fields, which oracle fields, known-finding classes."""
-import re
+import struct, re
 from .runner import Prop
 from . import core
 from gen import trees, text, misc, builtins, regexgen
@@ -257,6 +257,26 @@ class C16(Prop):
 
     def gen(self, tier, R):
         return [(c, 'release') for c in builtins.gen_c16(tier, R)] + [(c, 'release') for c in builtins.gen_datefmt(tier, R)]
+
+    def in_domain(self, line):
+        # the property speaks of times of day at millisecond resolution and of years 1..9999: a millisecond argument outside 0..999 (chrono's leap-second notation 1000..1999 included)
+        # or a year outside 1..9999 is modelled and compared, but a difference there is not a failing input of C16
+        el = core.top_elems(line)
+        if len(el) < 4 or el[0] != 'bi':
+            return True
+        name = core.unsx(el[3]).strip("'")
+
+        def numv(t):
+            m = re.match(r'\(n (\d+)\)$', t)
+            return struct.unpack('<d', struct.pack('<Q', int(m.group(1))))[0] if m else None
+        args = [numv(t) for t in el[4:]]
+        if name == 'encode_time' and len(args) >= 4:
+            ms = args[3]
+            return ms is not None and ms == ms and 0 <= ms <= 999 and ms == int(ms)
+        if name == 'encode_date' and len(args) >= 1:
+            y = args[0]
+            return y is not None and y == y and abs(y) != float('inf') and 1 <= int(y) <= 9999
+        return True
 
 
 class C13(Prop):
